@@ -65,6 +65,8 @@ MUTANTS = [
     ("m42", "C13", CP, 'static ref REF_KVP_KEY: String = String::from("ref");', 'static ref REF_KVP_KEY: String = String::from("Ref");'),
     ("m43", "C07", GEN, 'file_path.push(format!("breadlog-{}.tmp", Uuid::new_v4()));', 'file_path.push(format!("breadlog-{}.rs", Uuid::new_v4()));'),
     ("m44", "C08", GEN, "        if remove_file(&self.path).is_ok()\n        {}", "        if self.path.is_empty() && remove_file(&self.path).is_ok()\n        {}"),
+    ("m45", "C05", GEN, "                let line = reference.position().line();\n                let column = reference.position().column();", "                let line = reference.position().column();\n                let column = reference.position().line();"),
+    ("m46", "C05", GEN, "            reference_updates.num_inserted_references\n        );", "            reference_updates.num_inserted_references + 1\n        );"),
     ("m36", "C06", GEN, "                if references_id_result.1 == 0\n                {", "                if references_id_result.1 == 1\n                {"),
 ]
 
